@@ -1179,3 +1179,37 @@ def _vec_dedup(I, a, ci, dt):
         out.append(x)
     I.store(r, VecVal(out))
     return UNIT
+
+
+def _ord(v):
+    return v.vname
+
+
+@reg('Ordering::then', 'Ordering::then_with')
+def _ordering_then(I, a, ci, dt):
+    from .models import call_closure
+    o = a[0]
+    while isinstance(o, Ref):
+        o = I.load(o)
+    if o.vname != 'Equal':
+        return o
+    return call_closure(I, a[1]) if ci.method == 'then_with' else a[1]
+
+
+@reg('Ordering::reverse')
+def _ordering_reverse(I, a, ci, dt):
+    from .models import LESS, EQUAL, GREATER
+    o = a[0]
+    while isinstance(o, Ref):
+        o = I.load(o)
+    return {'Less': GREATER, 'Equal': EQUAL, 'Greater': LESS}[o.vname]()
+
+
+@reg('Ordering::is_eq', 'Ordering::is_ne', 'Ordering::is_lt', 'Ordering::is_gt', 'Ordering::is_le', 'Ordering::is_ge')
+def _ordering_is(I, a, ci, dt):
+    o = a[0]
+    while isinstance(o, Ref):
+        o = I.load(o)
+    n = o.vname
+    return {'is_eq': n == 'Equal', 'is_ne': n != 'Equal', 'is_lt': n == 'Less', 'is_gt': n == 'Greater',
+            'is_le': n != 'Greater', 'is_ge': n != 'Less'}[ci.method]
